@@ -331,7 +331,7 @@ func rulesC15(c *Ctx) {
 		}
 		// the end time is currentEpoch + DebondingInterval
 		okT := false
-		for _, b := range fn.Blocks {
+		for _, b := range blocksIP(fn) {
 			for _, in := range b.Instrs {
 				st, isSt := in.(*ssa.Store)
 				if !isSt {
